@@ -25,11 +25,6 @@ pub open spec fn token_wf(t: HandRangeToken) -> bool {
     }
 }
 
-/// combos swept by a span of rank pairs of one kind (0 pocket, 1 suited under `high`, 2 offsuit under `high`)
-pub open spec fn mk_rp(kind: int, high: Rank, r: Rank) -> RankPair {
-    if kind == 0 { RankPair::Pocket(r) } else if kind == 1 { RankPair::Suited(high, r) } else { RankPair::Ofsuit(high, r) }
-}
-
 pub open spec fn expand_ranks(kind: int, high: Rank, rs: Seq<Rank>, n: int) -> Seq<CardPair>
     decreases n
 {
